@@ -5,8 +5,8 @@ import OVM.Refine.NextPrev
   C16, item 3, part 3: `hex_vertices` of a cell built by `add_cell(8 vertices)` reports the documented cube
   pattern — symbolically.
   * `Frame k vs xs rot`: six halffaces `xs` that are loops through the vertex quadruples of the source tables
-    (`cellVFind`) over eight distinct vertices `vs` with unique edges; `rot i` = the rotation in which face `i` is
-    stored.  All reasoning about WHICH vertex / face / position comes next is done on the index tables by `decide`
+    (`cellVFind`) over eight distinct vertices `vs`, the opposite of every halfedge being the halfedge the tables give
+    (from unique edges among `vs`, or from the closed surface); `rot i` = the rotation in which face `i` is stored.  All reasoning about WHICH vertex / face / position comes next is done on the index tables by `decide`
     (`tbl_*`); the frame lifts it to halfedges (`Frame.edge_at`, `Frame.opp_at`).
   * `Frame.closed`: the six faces form a closed surface (what `adjacent_halfface_in_cell` needs).
   Proof-only file.
@@ -43,20 +43,29 @@ theorem tbl_edge : ∀ i, i < 6 → ∀ j, j < 6 → ∀ m, m < 4 → ∀ m', m'
 
 theorem II_mod (i m : Nat) : II i (m % 4) = II i m := by unfold II; rw [Nat.mod_mod]
 
-structure Frame (k : Kernel) (vs xs : List Nat) (rot : Nat → Nat) : Prop where
+/-- the vertex part of a frame: eight distinct vertices, six quads running through the quadruples of the tables -/
+structure FrameCore (k : Kernel) (vs xs : List Nat) (rot : Nat → Nat) : Prop where
   vlen : vs.length = 8
   vnd : vs.Nodup
   xlen : xs.length = 6
-  uniq : UniqEdges k vs
   len : ∀ i, i < 6 → (k.hfHes (xs.getD i 0)).length = 4
   rlt : ∀ i, i < 6 → rot i < 4
   run : ∀ i, i < 6 → ∀ j, j < 4 → Runs k ((k.hfHes (xs.getD i 0)).getD j 0) (vs.getD (II i (j + rot i)) 0) (vs.getD (II i (j + rot i + 1)) 0)
 
+/-- a frame: the vertex part, and the opposite of the halfedge at position `j` of face `i` IS the halfedge of the face
+    and at the position that the tables give.  (Follows from `UniqEdges k vs` — `FrameCore.opp_of_uniq`, the route of
+    `add_cell(8 vertices)` — or from the six faces forming a closed surface — `FrameCore.opp_of_closed`, the route of
+    the checked `add_cell(halffaces)`; other edges of the mesh between the eight vertices do not matter.) -/
+structure Frame (k : Kernel) (vs xs : List Nat) (rot : Nat → Nat) : Prop extends FrameCore k vs xs rot where
+  oppf : ∀ i, i < 6 → ∀ j, j < 4 → opp ((k.hfHes (xs.getD i 0)).getD j 0) =
+    (k.hfHes (xs.getD (rev i ((j + rot i) % 4)).1 0)).getD (((rev i ((j + rot i) % 4)).2 + 4 - rot (rev i ((j + rot i) % 4)).1) % 4) 0
+
 variable {k : Kernel} {vs xs : List Nat} {rot : Nat → Nat}
 
-theorem Frame.vmem (F : Frame k vs xs rot) {p : Nat} (hp : p < 8) : vs.getD p 0 ∈ vs := getD_mem_lt vs p (by rw [F.vlen]; exact hp)
+theorem FrameCore.vmem (F : FrameCore k vs xs rot) {p : Nat} (hp : p < 8) : vs.getD p 0 ∈ vs := getD_mem_lt vs p (by rw [F.vlen]; exact hp)
+theorem Frame.vmem (F : Frame k vs xs rot) {p : Nat} (hp : p < 8) : vs.getD p 0 ∈ vs := F.toFrameCore.vmem hp
 
-theorem Frame.vinj (F : Frame k vs xs rot) {p q : Nat} (hp : p < 8) (hq : q < 8) (h : vs.getD p 0 = vs.getD q 0) : p = q := by
+theorem FrameCore.vinj (F : FrameCore k vs xs rot) {p q : Nat} (hp : p < 8) (hq : q < 8) (h : vs.getD p 0 = vs.getD q 0) : p = q := by
   have h1 : p < vs.length := by rw [F.vlen]; exact hp
   have h2 : q < vs.length := by rw [F.vlen]; exact hq
   rw [List.getD_eq_getElem?_getD, List.getD_eq_getElem?_getD, List.getElem?_eq_getElem h1, List.getElem?_eq_getElem h2] at h
@@ -66,15 +75,8 @@ theorem Frame.vinj (F : Frame k vs xs rot) {p q : Nat} (hp : p < 8) (hq : q < 8)
   rw [h] at a
   exact a.symm.trans b
 
-/-- two halfedges that run between the same two (distinct) vertices of the frame are equal -/
-theorem Frame.runs_unique (F : Frame k vs xs rot) {e e' u w : Nat} (h : Runs k e u w) (h' : Runs k e' u w) (hu : u ∈ vs)
-    (hw : w ∈ vs) (hne : u ≠ w) : e = e' := by
-  have he := F.uniq _ _ u w hu hw (joins_of_runs h) (joins_of_runs h')
-  by_cases heq : e = e'
-  · exact heq
-  · have := CellCheck.eq_opp_of_div_eq he heq
-    have hf : k.fromV e' = w := by rw [this, Lookup.fromV_opp]; exact h.2.2.2
-    exact absurd (h'.2.2.1.symm.trans hf) hne
+theorem Frame.vinj (F : Frame k vs xs rot) {p q : Nat} (hp : p < 8) (hq : q < 8) (h : vs.getD p 0 = vs.getD q 0) : p = q :=
+  F.toFrameCore.vinj hp hq h
 
 /-- the halfedge at position `j` of face `i`, with its index-level description -/
 theorem Frame.mem_at (F : Frame k vs xs rot) {i j : Nat} (hi : i < 6) (hj : j < 4) :
@@ -115,9 +117,9 @@ theorem Frame.nodup_face (F : Frame k vs xs rot) {i : Nat} (hi : i < 6) : (k.hfH
   · intro e; have := key 1 3 (by omega) (by omega) e; omega
   · intro e; have := key 2 3 (by omega) (by omega) e; omega
 
-/-- **the opposite of the halfedge at position `j` of face `i`** is the halfedge of face `(rev i m).1` at the position
-    that the tables give (`m = (j + rot i) % 4`) -/
-theorem Frame.opp_at (F : Frame k vs xs rot) {i j : Nat} (hi : i < 6) (hj : j < 4) :
+/-- with unique edges among the eight vertices the opposite of the halfedge at position `j` of face `i` is the halfedge
+    of face `(rev i m).1` at the position that the tables give (`m = (j + rot i) % 4`) -/
+theorem FrameCore.opp_of_uniq (F : FrameCore k vs xs rot) (hu : UniqEdges k vs) {i j : Nat} (hi : i < 6) (hj : j < 4) :
     opp ((k.hfHes (xs.getD i 0)).getD j 0) =
       (k.hfHes (xs.getD (rev i ((j + rot i) % 4)).1 0)).getD (((rev i ((j + rot i) % 4)).2 + 4 - rot (rev i ((j + rot i) % 4)).1) % 4) 0 := by
   have hm : (j + rot i) % 4 < 4 := Nat.mod_lt _ (by omega)
@@ -148,7 +150,14 @@ theorem Frame.opp_at (F : Frame k vs xs rot) {i j : Nat} (hi : i < 6) (hj : j < 
   have h2 : II i (j + rot i + 1) < 8 := by
     have := (tbl_lt i hi ((j + rot i + 1) % 4) (Nat.mod_lt _ (by omega))).1
     rwa [II_mod] at this
-  exact (opp_of_runs F.uniq r1 r2 (F.vmem h1) (F.vmem h2) hne).symm
+  exact (opp_of_runs hu r1 r2 (F.vmem h1) (F.vmem h2) hne).symm
+
+/-- **the opposite of the halfedge at position `j` of face `i`** is the halfedge of face `(rev i m).1` at the position
+    that the tables give (`m = (j + rot i) % 4`) -/
+theorem Frame.opp_at (F : Frame k vs xs rot) {i j : Nat} (hi : i < 6) (hj : j < 4) :
+    opp ((k.hfHes (xs.getD i 0)).getD j 0) =
+      (k.hfHes (xs.getD (rev i ((j + rot i) % 4)).1 0)).getD (((rev i ((j + rot i) % 4)).2 + 4 - rot (rev i ((j + rot i) % 4)).1) % 4) 0 :=
+  F.oppf i hi j hj
 
 /-- a halfedge lies in one face only -/
 theorem Frame.face_of_mem (F : Frame k vs xs rot) {i i' e : Nat} (hi : i < 6) (hi' : i' < 6)
@@ -604,26 +613,27 @@ theorem uniq_congr {k k' : Kernel} (he : k'.edges = k.edges) (hd : k'.eDel = k.e
 
 theorem Frame.congr {k' : Kernel} (F : Frame k vs xs rot) (he : k'.edges = k.edges) (hf : k'.faces = k.faces)
     (hd : k'.eDel = k.eDel) : Frame k' vs xs rot :=
-  ⟨F.vlen, F.vnd, F.xlen, uniq_congr he hd F.uniq, fun i hi => by rw [hfHes_congr k k' hf]; exact F.len i hi, F.rlt,
-   fun i hi j hj => by rw [hfHes_congr k k' hf]; exact runs_congr he hd (F.run i hi j hj)⟩
+  ⟨⟨F.vlen, F.vnd, F.xlen, fun i hi => by rw [hfHes_congr k k' hf]; exact F.len i hi, F.rlt,
+    fun i hi j hj => by rw [hfHes_congr k k' hf]; exact runs_congr he hd (F.run i hi j hj)⟩,
+   fun i hi j hj => by rw [hfHes_congr k k' hf, hfHes_congr k k' hf]; exact F.oppf i hi j hj⟩
 
 theorem pick_getD (vs I : List Nat) (m : Nat) (hm : m < I.length) : (hexPick vs I).getD m 0 = vs.getD (I.getD m 0) 0 := by
   unfold hexPick
   exact getD_map_lt I (fun i => vs.getD i 0) m hm
 
-/-- six loops through the quadruples of the tables make a frame -/
-theorem frame_of_cycles (k : Kernel) (v0 v1 v2 v3 v4 v5 v6 v7 x0 x1 x2 x3 x4 x5 : Nat)
-    (hd : [v0, v1, v2, v3, v4, v5, v6, v7].Nodup) (hu : UniqEdges k [v0, v1, v2, v3, v4, v5, v6, v7])
+/-- six loops through the quadruples of the tables make the vertex part of a frame -/
+theorem frameCore_of_cycles (k : Kernel) (v0 v1 v2 v3 v4 v5 v6 v7 x0 x1 x2 x3 x4 x5 : Nat)
+    (hd : [v0, v1, v2, v3, v4, v5, v6, v7].Nodup)
     (c0 : Cyc k x0 [v3, v2, v1, v0]) (c1 : Cyc k x1 [v7, v6, v5, v4]) (c2 : Cyc k x2 [v1, v2, v6, v7])
     (c3 : Cyc k x3 [v4, v5, v3, v0]) (c4 : Cyc k x4 [v1, v7, v4, v0]) (c5 : Cyc k x5 [v2, v3, v5, v6]) :
-    ∃ rot, Frame k [v0, v1, v2, v3, v4, v5, v6, v7] [x0, x1, x2, x3, x4, x5] rot := by
+    ∃ rot, FrameCore k [v0, v1, v2, v3, v4, v5, v6, v7] [x0, x1, x2, x3, x4, x5] rot := by
   obtain ⟨_, l0, r0, hr0, q0⟩ := c0
   obtain ⟨_, l1, r1, hr1, q1⟩ := c1
   obtain ⟨_, l2, r2, hr2, q2⟩ := c2
   obtain ⟨_, l3, r3, hr3, q3⟩ := c3
   obtain ⟨_, l4, r4, hr4, q4⟩ := c4
   obtain ⟨_, l5, r5, hr5, q5⟩ := c5
-  refine ⟨fun i => [r0, r1, r2, r3, r4, r5].getD i 0, rfl, hd, rfl, hu, ?_, ?_, ?_⟩
+  refine ⟨fun i => [r0, r1, r2, r3, r4, r5].getD i 0, rfl, hd, rfl, ?_, ?_, ?_⟩
   · intro i hi
     have : i = 0 ∨ i = 1 ∨ i = 2 ∨ i = 3 ∨ i = 4 ∨ i = 5 := by omega
     rcases this with rfl | rfl | rfl | rfl | rfl | rfl <;> assumption
@@ -654,6 +664,52 @@ theorem frame_of_cycles (k : Kernel) (v0 v1 v2 v3 v4 v5 v6 v7 x0 x1 x2 x3 x4 x5 
     · have a := key [2, 3, 5, 6] rfl (j + r5); have b := key [2, 3, 5, 6] rfl (j + r5 + 1)
       have := q5 j hj; rw [show [v2, v3, v5, v6] = hexPick [v0, v1, v2, v3, v4, v5, v6, v7] [2, 3, 5, 6] from rfl, a, b] at this
       exact this
+
+/-- six loops through the quadruples of the tables, unique edges among the eight vertices: a frame -/
+theorem frame_of_cycles (k : Kernel) (v0 v1 v2 v3 v4 v5 v6 v7 x0 x1 x2 x3 x4 x5 : Nat)
+    (hd : [v0, v1, v2, v3, v4, v5, v6, v7].Nodup) (hu : UniqEdges k [v0, v1, v2, v3, v4, v5, v6, v7])
+    (c0 : Cyc k x0 [v3, v2, v1, v0]) (c1 : Cyc k x1 [v7, v6, v5, v4]) (c2 : Cyc k x2 [v1, v2, v6, v7])
+    (c3 : Cyc k x3 [v4, v5, v3, v0]) (c4 : Cyc k x4 [v1, v7, v4, v0]) (c5 : Cyc k x5 [v2, v3, v5, v6]) :
+    ∃ rot, Frame k [v0, v1, v2, v3, v4, v5, v6, v7] [x0, x1, x2, x3, x4, x5] rot := by
+  obtain ⟨rot, C⟩ := frameCore_of_cycles k v0 v1 v2 v3 v4 v5 v6 v7 x0 x1 x2 x3 x4 x5 hd c0 c1 c2 c3 c4 c5
+  exact ⟨rot, C, fun i hi j hj => C.opp_of_uniq hu hi hj⟩
+
+/-- when the six faces form a closed surface, the opposite of the halfedge at position `j` of face `i` is the halfedge
+    the tables give — whatever other edges the mesh holds (the reverse arc occurs in the tables only once, `tbl_edge`) -/
+theorem FrameCore.opp_of_closed (F : FrameCore k vs xs rot) (hcl : ClosedSurface k xs) {i j : Nat} (hi : i < 6) (hj : j < 4) :
+    opp ((k.hfHes (xs.getD i 0)).getD j 0) =
+      (k.hfHes (xs.getD (rev i ((j + rot i) % 4)).1 0)).getD (((rev i ((j + rot i) % 4)).2 + 4 - rot (rev i ((j + rot i) % 4)).1) % 4) 0 := by
+  have hm : (j + rot i) % 4 < 4 := Nat.mod_lt _ (by omega)
+  obtain ⟨t1, t2, _, t4, t5⟩ := tbl_rev i hi _ hm
+  have hmem : (k.hfHes (xs.getD i 0)).getD j 0 ∈ k.cellHalfedges xs :=
+    List.mem_flatMap.mpr ⟨_, getD_mem_lt xs i (by rw [F.xlen]; exact hi), getD_mem_lt _ j (by rw [F.len i hi]; exact hj)⟩
+  obtain ⟨y, hy, hey⟩ := List.mem_flatMap.mp (hcl.2 _ hmem)
+  obtain ⟨i', hi', rfl⟩ := List.getElem_of_mem hy
+  rw [getElem_eq_getD hi'] at hey
+  rw [F.xlen] at hi'
+  obtain ⟨j', hj', e⟩ := List.getElem_of_mem hey
+  rw [getElem_eq_getD hj'] at e
+  rw [F.len i' hi'] at hj'
+  have r1 := F.run i hi j hj
+  have r2 := F.run i' hi' j' hj'
+  rw [e] at r2
+  have f1 := r2.2.2.1.symm.trans ((Lookup.fromV_opp k _).trans r1.2.2.2)
+  have f2 := r2.2.2.2.symm.trans ((Lookup.toV_opp k _).trans r1.2.2.1)
+  have hr := F.rlt i hi
+  have hr' := F.rlt i' hi'
+  have b : ∀ i, i < 6 → ∀ n, II i n < 8 := fun i hi n => by
+    have := (tbl_lt i hi (n % 4) (Nat.mod_lt _ (by omega))).1; rwa [II_mod] at this
+  have a1 := F.vinj (b i' hi' _) (b i hi _) f1
+  have a2 := F.vinj (b i' hi' _) (b i hi _) f2
+  have hrt := F.rlt _ t1
+  have := tbl_edge i' hi' _ t1 ((j' + rot i') % 4) (Nat.mod_lt _ (by omega)) _ t2
+    ⟨by rw [II_mod, t4, a1]; exact II_congr i (by omega),
+     by rw [t5, II_mod, ← a2]; exact II_congr i' (by omega)⟩
+  obtain ⟨e1, e2⟩ := this
+  rw [← e, ← e1]
+  congr 1
+  rw [← e1] at hrt
+  omega
 
 /-- **`hex_vertices` of a cell created by `add_cell(8 vertices)` reports the documented cube pattern** — under the
     conditions of `hexAddCellV_conv` and valid arguments (`HexOpOK`: the six halffaces free and distinct) -/
